@@ -6,6 +6,7 @@ CONSTANTS
   W = 3
   NestedOrder = "hash"
   FileOrder = "input"
+  ItemOrder = "id"
 INVARIANT OutputIsFunctionOfInput
 PROPERTY Terminates
 CHECK_DEADLOCK FALSE
